@@ -575,6 +575,7 @@ def handleColl (j : Json) : Except String Json := do
     | some p => p.2
     | none => 999999999
   let mut c : Coll := Coll.empty
+  let mut prevEnts : List (Nat × Cell) := []
   let mut diffs : List String := []
   let mut mons : List String := []
   let mut k := 0
@@ -598,6 +599,14 @@ def handleColl (j : Json) : Except String Json := do
       c := { ents := st.after.ents.map (fun (i, cl) => ⟨i, cl, 0⟩), ix := implIx }
     if !(implIx.ok parent st.after.ents) then
       mons := mons ++ [s!"C08/index-after-{st.op}| step {k} {st.op} {st.id}: the implementation's index maps disagree with its entities"]
+    -- stations and bases never change location: a modification may not move one
+    if fixed && st.op == "modify" then
+      match prevEnts.find? (·.1 == st.id), st.after.ents.find? (·.1 == st.id) with
+      | some a, some b =>
+        if a.2 != b.2 then
+          mons := mons ++ [s!"C08/fixed-entity-moved| step {k}: a modification moved entity {st.id} of a kind that never changes location from cell {a.2} to cell {b.2}"]
+      | _, _ => pure ()
+    prevEnts := st.after.ents
     match st.after.lookups with
     | some lk =>
       -- the read side: the model's lookups on the model's state, and the statement on the observed answers
